@@ -29,7 +29,7 @@ the relative form; process v starts with package v mod n), the mutable module / 
 anchored modules must be unchanged after all the loads of a child process (the model of a process keeps no state), and
 FlowIR packages list environment names that are equal ignoring case (one spelling not all-lowercase; default and a
 second platform) - compared between the key-permuted documents of the 6 processes, in-process between three listing
-orders, and with the rule of the loop of FlowIR.from_dict (F15d, repaired: two non-lowercase spellings are visited in sorted order).
+orders, and with the rule of the loop of FlowIR.from_dict (open finding F15d: two non-lowercase spellings).
 
 "Every process" is represented by: 6 processes (hash seeds 0,1,2,3,random,4; six key orders of every
 document; six creation orders of every file set) on the implementation side, and by "every permutation
@@ -72,7 +72,7 @@ ASSUMPTIONS = [
     'graph.py in every child process; state kept elsewhere (instance attributes of long-lived objects, other modules, '
     'closures) is only visible if a later load of the session reads it',
     'environment names equal ignoring case: generated with exactly ONE spelling that is not all-lowercase next to the '
-    'lowercase one (two non-lowercase spellings: F15d, repaired — visited in sorted order; corpus witness); not modelled in Coq '
+    'lowercase one (two non-lowercase spellings = open finding F15d, corpus witness only); not modelled in Coq '
     '(generator / predicate extension)',
     'a process is modelled without state (Det.Model.session = map of single loads); state kept by the implementation '
     'between two loads is visible only to the session runs: 3-6 loads per process sharing files, 6 processes with '
